@@ -61,6 +61,11 @@ class ScriptedGen:
         return self.send(None)
 
     def _step(self, kind_in, payload):
+        if not self.started and not self.done and kind_in != "send":
+            self.done = True          # never started: no code runs, not logged (same rule as the oracle)
+            if kind_in == "throw":
+                raise payload
+            return None
         self.log.append((self.name, self.k, kind_in, payload))
         if self.done:
             if kind_in == "send":
